@@ -454,6 +454,7 @@ class SymEngine:
         self.markers = {}
         self.nonlinear = False
         self.realisations = 0
+        self.decided = {}
         self.cands = []
         self.discharged = 0
         self.q_unknown = []
@@ -614,6 +615,8 @@ class SymEngine:
                     self._set_model(e.model)
                 else:
                     self.model = None
+        if e.kind == "B":
+            self.decided[e.key] = e.side
         return e
 
     def assume(self, cond):
@@ -673,13 +676,18 @@ class SymEngine:
     def branch(self, c):
         if not c.lin.t:
             return c.const_truth()
+        key = c.key()
+        known = self.decided.get(key)
+        if known is not None:       # the same condition was already decided on this path
+            return known
         i = len(self.trace)
         if i < len(self.prefix):
             return self._replay_entry(i).side
         zc = self.z3cond(c)
         if i < len(self.forced):
             side = bool(self.forced[i])
-            self.trace.append(Dec("B", side=side, zc=zc))
+            self.decided[key] = side
+            self.trace.append(Dec("B", side=side, zc=zc, key=key))
             self.solver.push()
             self.solver.add(zc if side else z3.Not(zc))
             self.depth += 1
@@ -698,7 +706,8 @@ class SymEngine:
         elif feasible:
             om = self.solver.model()
         self.solver.pop()
-        self.trace.append(Dec("B", side=side, zc=zc, other=feasible, model=om))
+        self.decided[key] = side
+        self.trace.append(Dec("B", side=side, zc=zc, other=feasible, model=om, key=key))
         self.solver.push()
         self.solver.add(zc if side else z3.Not(zc))
         self.depth += 1
@@ -853,6 +862,7 @@ class SymEngine:
             self.discharged = 0
             self.q_unknown = []
             self.tags = set()
+            self.decided = {}
             if self.depth == 0:
                 self.model = None
             outcome = None
@@ -882,7 +892,7 @@ class SymEngine:
                     tr[-1] = Dec("C", side=last.side + 1, remaining=last.remaining - 1)
                     break
                 if last.kind == "B" and last.other:
-                    tr[-1] = Dec("B", side=not last.side, zc=last.zc, other=False, model=last.model)
+                    tr[-1] = Dec("B", side=not last.side, zc=last.zc, other=False, model=last.model, key=last.key)
                     break
                 tr.pop()
             if not tr:
@@ -908,9 +918,10 @@ class SymEngine:
 
 class Dec:
     """one entry of the decision vector: Assumption, Choice or Branch"""
-    __slots__ = ("kind", "side", "remaining", "zc", "other", "model")
+    __slots__ = ("kind", "side", "remaining", "zc", "other", "model", "key")
 
-    def __init__(self, kind, side=0, remaining=0, zc=None, other=False, model=None):
+    def __init__(self, kind, side=0, remaining=0, zc=None, other=False, model=None, key=None):
+        self.key = key
         self.kind = kind
         self.side = side
         self.remaining = remaining
